@@ -162,13 +162,8 @@ pub trait DynSub {
     fn name(&self) -> &'static str;
     fn run(&self, ctx: &mut ShardCtx);
     fn replay(&self, case: &serde_json::Value) -> Result<(), String>;
-    /// Coverage-guided fuzzing entry: the fuzzer's bytes are the entropy source of the
-    /// sub-check's own proptest strategy (RngAlgorithm::PassThrough), so a fuzz input decodes to
-    /// one structured case; returns the decoded case (as JSON) and the check's verdict.
-    /// None = this sub-check is not driven by a strategy.
-    fn fuzz(&self, _data: &[u8], _tier: Tier) -> Option<(serde_json::Value, Classes, Result<(), String>)> {
-        None
-    }
+    /// Classify and check a case given as JSON (used by the byte-decoding fuzz entry).
+    fn classify_and_check(&self, case: &serde_json::Value) -> Result<(Classes, Result<(), String>), String>;
 }
 
 struct Acc {
@@ -347,30 +342,14 @@ where
         guarded(&self.check, &c)
     }
 
-    fn fuzz(&self, data: &[u8], tier: Tier) -> Option<(serde_json::Value, Classes, Result<(), String>)> {
-        use proptest::strategy::ValueTree;
-        let config = Config { failure_persistence: None, ..Config::default() };
-        let rng = proptest::test_runner::TestRng::from_seed(RngAlgorithm::PassThrough, data);
-        let mut runner = TestRunner::new_with_rng(config, rng);
-        let strat = (self.strategy)(tier);
-        let tree = match strat.new_tree(&mut runner) {
-            Ok(t) => t,
-            Err(_) => return None,
-        };
-        let case = tree.current();
-        if let Some(k) = self.known {
-            if k(&case) {
-                return None;
-            }
-        }
-        let js = serde_json::to_value(&case).unwrap_or(serde_json::Value::Null);
-        let cl = (self.classify)(&case);
-        let r = guarded(&self.check, &case);
-        let r = match r {
+    fn classify_and_check(&self, case: &serde_json::Value) -> Result<(Classes, Result<(), String>), String> {
+        let c: T = serde_json::from_value(case.clone()).map_err(|e| format!("decode: {}", e))?;
+        let cl = (self.classify)(&c);
+        let r = match guarded(&self.check, &c) {
             Err(m) if m.starts_with("ENGINE") => Ok(()),
             other => other,
         };
-        Some((js, cl, r))
+        Ok((cl, r))
     }
 }
 
@@ -437,6 +416,16 @@ where
     fn replay(&self, case: &serde_json::Value) -> Result<(), String> {
         let c: T = serde_json::from_value(case.clone()).map_err(|e| format!("replay decode: {}", e))?;
         guarded(&self.check, &c)
+    }
+
+    fn classify_and_check(&self, case: &serde_json::Value) -> Result<(Classes, Result<(), String>), String> {
+        let c: T = serde_json::from_value(case.clone()).map_err(|e| format!("decode: {}", e))?;
+        let cl = (self.classify)(&c);
+        let r = match guarded(&self.check, &c) {
+            Err(m) if m.starts_with("ENGINE") => Ok(()),
+            other => other,
+        };
+        Ok((cl, r))
     }
 }
 
